@@ -8,6 +8,7 @@ import numpy as np
 
 from .. import fcsgen, beadsgen, explore
 from ..runner import Result, scratch
+from ..fingerprint import fp as _fp
 
 ID = 'C02'
 LEVEL = 'exploration'
@@ -142,7 +143,16 @@ def judge(res, sig, what, d, truth, out, mef_given, mef_channels, statistic, one
             tf = out.transform_fxn
             pd_ = np.tile(probe.reshape(-1, 1), (1, d.shape[1]))
             try:
-                got = np.asarray(tf(make_probe(d, pd_), ch))[:, names.index(ch)]
+                pr0 = make_probe(d, pd_)                 # a double-precision sample, as to_rfi returns it
+                f_before = _fp(pr0)
+                got_full = tf(pr0, ch)
+                got = np.asarray(got_full)[:, names.index(ch)]
+                if _fp(pr0) != f_before:
+                    res.violation(sig + ':transformation-changes-input', '%s: applying the returned transformation to channel %s changed the sample it was applied to' % (what, ch), one)
+                    return None
+                if _fp(tf(pr0, ch)) != _fp(got_full):
+                    res.violation(sig + ':transformation-history', '%s: applying the returned transformation to the same sample a second time gives another result' % what, one)
+                    return None
             except Exception as e:
                 res.violation(sig + ':transformation-raises', '%s: the returned transformation applied to channel %s raised %s: %s' % (what, ch, type(e).__name__, e), one)
                 return None
